@@ -115,18 +115,26 @@ def run(p: Program, rep: Report, tier: str) -> None:
             return "boundary" if (fn is init and name == "boundary") else None
 
         def sanitiser(self, fn, call, resolved):
-            return resolved == ("ext", "re.escape")
+            if resolved == ("ext", "re.escape"):
+                return True
+            # map(re.escape, <texts>): every element passes the sanitiser
+            if resolved == ("builtin", "map") and len(call.args) == 2 and isinstance(call.args[0], (ast.Attribute, ast.Name)):
+                try:
+                    return p.resolve_callee(fn, call.args[0]) == ("ext", "re.escape")
+                except Exception:
+                    return False
+            return False
 
     ta = TaintAnalysis(p, Spec())
     env = ta.function_env(init, dec)
-    compiles: Dict[str, ast.Call] = {}
-    for n in walk_shallow(init.node):
-        if isinstance(n, ast.Assign) and isinstance(n.value, ast.Call) and p.resolve_call(init, n.value) == ("ext", "re.compile") and isinstance(n.targets[0], ast.Attribute):
-            compiles[n.targets[0].attr] = n.value
+    # every `self.<attr> = <compiled regex>`: re.compile(...) in place, or a helper function that returns one
+    from .mp_common import decoder_patterns
+    dpats = decoder_patterns(p, B)
+    compiles: Dict[str, ast.Call] = {attr: node.value for attr, (_pat, _fl, node) in dpats.items()}
     if len(compiles) < 2:
         rep.undecide("R1.1", f"only {len(compiles)} compiled delimiter patterns in MultipartDecoder.__init__")
     for attr, call in compiles.items():
-        o = ta.expr(init, call.args[0], env, dec)
+        o = ta.expr(init, call, env, dec)  # origins of everything that flows into the pattern (through a helper's return as well)
         if o:
             rep.violation("R1.1", construct(init, text=f"self.{attr} = re.compile(<boundary unescaped>)"), where(init, call),
                           f"the boundary reaches re.compile for self.{attr} without re.escape: RFC 2046 boundaries may contain + ( ) ? . ' which then act as regex operators")
@@ -146,20 +154,12 @@ def run(p: Program, rep: Report, tier: str) -> None:
     folded: Dict[str, bytes] = {}
     from .mp_common import pending_idiom as _pi
     pending_attrs = set(_pi(p))
-    fenv = {"boundary": B}
-    for st_ in init.node.body:  # straight-line locals of __init__ (e.g. delimiter = b"--" + boundary)
-        if isinstance(st_, ast.Assign) and len(st_.targets) == 1 and isinstance(st_.targets[0], ast.Name):
-            try:
-                fenv[st_.targets[0].id] = F.fold(mp, st_.value, fenv)
-            except NotConst:
-                pass
     for attr, call in compiles.items():
         if attr in pending_attrs:
             continue  # the end-anchored partial-delimiter pattern is judged by R1.3 (automaton inclusion)
-        try:
-            v = F.fold(mp, call.args[0], fenv)
-        except NotConst as e:
-            rep.undecide("R1.2", f"self.{attr} pattern not foldable: {e}")
+        v = dpats[attr][0]
+        if v is None:
+            rep.undecide("R1.2", f"self.{attr} pattern not foldable: {dpats[attr][1]}")
             continue
         if not isinstance(v, bytes):
             rep.undecide("R1.2", f"self.{attr} pattern is not bytes")
@@ -271,7 +271,8 @@ def run(p: Program, rep: Report, tier: str) -> None:
                 # max(last_newline(), len(buffer) - len(boundary) - K): sound only while no complete
                 # '--boundary' is buffered (a partial delimiter is a proper prefix of CRLF--boundary)
                 k, has_ln = clamp
-                no_boundary = any(t and f[0] == "cmp" and f[1] == "Eq" and f[3] == ("const", -1) and f[2][0] == "call" and f[2][1][0] == "attr" and f[2][1][2] == "find" for f, t in pa.facts)
+                from .mp_common import boundary_absent
+                no_boundary = boundary_absent(pa)
                 if not has_ln:
                     rep.violation("R1.3", construct(ne, text=f"hold-back bound {show(emit_bound)[:60]}"), where(ne, node), "the clamped hold-back bound does not include last_newline()")
                 elif k < 3:
@@ -412,26 +413,52 @@ def run(p: Program, rep: Report, tier: str) -> None:
         if form is None or pm is None:
             raise AnalysisError(f"{side} Request.form/_parse_multipart vanished")
         rep.analysed(form.fq, pm.fq)
-        src = ast.unparse(form.node)
-        if "self.content_type.options['boundary'].encode('latin-1')" in src or "self.content_type.options['boundary'].encode('latin1')" in src:
-            rep.ok("R1.5", f"{side}: boundary = content-type boundary parameter encoded as Latin-1")
+        # decided on the paths of the form accessor (private helpers such as _parse_multipart inlined): the one call of the
+        # stream helper of this interface and what it is given
+        fpaths, fcol, _fit = run_paths(p, form, req)
+        rep.cfg_paths += len(fpaths)
+        OPT = ("attr", ("attr", ("param", "self"), "content_type"), "options")
+        seen_call = False
+        verdicts = {"boundary": None, "charset": None, "call": None}
+        for pa in fpaths:
+            hc = [e for e in pa.events if e.kind == "call" and e.a[0] in ("func", "closure") and e.a[1].startswith("baize.multipart_helper:")]
+            if not hc:
+                continue
+            seen_call = True
+            if len(hc) != 1 or not callee_is(hc[0].a, helper):
+                verdicts["call"] = f"{len(hc)} helper calls / {show(hc[0].a)}"
+                continue
+            e = hc[0]
+            node, _f = fcol.nodes.get(e.tag, (None, form))
+            a = e.b
+            kw = dict(e.c)
+            okcall = len(a) == 3 and (a[0][0] == "gen" and a[0][1].endswith("Request.stream") or (a[0][0] == "call" and callee_is(a[0][1], "stream"))) and kw.get("file_factory") == ("cls", "baize.datastructures:UploadFile")
+            if not okcall and verdicts["call"] is None:
+                verdicts["call"] = f"{helper}({', '.join(show(x)[:30] for x in a)}, {', '.join(k + '=' + show(v)[:20] for k, v in e.c)})"
+            if len(a) >= 3:
+                b_, c_ = a[1], a[2]
+                okb = b_[0] == "call" and b_[1][0] == "attr" and b_[1][2] == "encode" and b_[1][1] == ("sub", OPT, ("const", "boundary")) and len(b_[2]) == 1 and b_[2][0][0] == "const" \
+                    and str(b_[2][0][1]).lower().replace("_", "-") in ("latin-1", "latin1", "iso-8859-1", "l1")
+                if not okb and verdicts["boundary"] is None:
+                    verdicts["boundary"] = show(b_)[:70]
+                okc = c_[0] == "call" and c_[1] == ("attr", OPT, "get") and c_[2] == (("const", "charset"), ("const", "utf8"))
+                if not okc and verdicts["charset"] is None:
+                    verdicts["charset"] = show(c_)[:70]
+        if not seen_call:
+            rep.violation("R1.5", construct(pm, text="helper call"), where(pm), f"{side}: _parse_multipart does not call {helper} of its own interface exactly once")
         else:
-            rep.violation("R1.5", construct(form, text="boundary encoding"), where(form), f"{side}: the boundary handed to the decoder is not the Latin-1 encoding of the Content-Type boundary parameter")
-        if "self.content_type.options.get('charset', 'utf8')" in src:
-            rep.ok("R1.5", f"{side}: multipart charset default utf8")
-        else:
-            rep.violation("R1.5", construct(form, text="charset default"), where(form), f"{side}: multipart charset default is not utf8")
-        calls = [c for c in calls_in(pm) if isinstance(p.resolve_call(pm, c, req), FuncInfo) and p.resolve_call(pm, c, req).module.name == "baize.multipart_helper"]
-        if len(calls) == 1 and p.resolve_call(pm, calls[0], req).name == helper:
-            c = calls[0]
-            args = [ast.unparse(a) for a in c.args]
-            kws = {k.arg: ast.unparse(k.value) for k in c.keywords}
-            if args == ["self.stream()", "boundary", "charset"] and kws.get("file_factory") == "UploadFile":
+            if verdicts["boundary"] is None:
+                rep.ok("R1.5", f"{side}: boundary = content-type boundary parameter encoded as Latin-1")
+            else:
+                rep.violation("R1.5", construct(form, text="boundary encoding"), where(form), f"{side}: the boundary handed to the decoder is not the Latin-1 encoding of the Content-Type boundary parameter (got {verdicts['boundary']})")
+            if verdicts["charset"] is None:
+                rep.ok("R1.5", f"{side}: multipart charset default utf8")
+            else:
+                rep.violation("R1.5", construct(form, text="charset default"), where(form), f"{side}: multipart charset default is not utf8 (got {verdicts['charset']})")
+            if verdicts["call"] is None:
                 rep.ok("R1.5", f"{side}: _parse_multipart -> {helper}(self.stream(), boundary, charset, file_factory=UploadFile)")
             else:
-                rep.violation("R1.5", construct(pm, c), where(pm, c), f"{side}: the helper is not called with (self.stream(), boundary, charset, file_factory=UploadFile)")
-        else:
-            rep.violation("R1.5", construct(pm, text="helper call"), where(pm), f"{side}: _parse_multipart does not call {helper} of its own interface exactly once")
+                rep.violation("R1.5", construct(pm, text="helper call"), where(pm), f"{side}: the helper is not called with (self.stream(), boundary, charset, file_factory=UploadFile): {verdicts['call']}")
     # the WSGI form accessor reads its chunks from Request.stream(): that reader must end on an empty read only, otherwise a
     # server that delivers the body in short reads makes the form depend on how the bytes arrived
     # the boundary comes from request.content_type: that accessor parses the WHOLE Content-Type header value (a quoted
